@@ -364,7 +364,7 @@ class ExcelParser(ExcelParserTokens):
                 continue
 
             # scientific notation check
-            regexSN = r'^[1-9]{1}(\.[0-9]+)?[eE]{1}$'
+            regexSN = r'^([0-9]+\.?[0-9]*|\.[0-9]+)[eE]$'
             if (("+-").find(currentChar()) != -1):
                 if len(token) > 1:
                     if re.match(regexSN, token):
